@@ -237,6 +237,20 @@ def atoms_model(ctx):
            str({k: np.shape(v) for k, v in rp.items()} if isinstance(rp, dict) else rp), node=ctx.fn(AT, 'Atoms.__init__'), key='read')
 
 
+def _same_model(a, b):
+    """deep equality of two models (dict-like nodes, lists, arrays, exact values)"""
+    if isinstance(a, dict) and isinstance(b, dict):
+        return list(a.keys()) == list(b.keys()) and all(_same_model(a[k], b[k]) for k in a)
+    if isinstance(a, (list, tuple)) and isinstance(b, (list, tuple)):
+        return len(a) == len(b) and all(_same_model(x, y) for x, y in zip(a, b))
+    if isinstance(a, np.ndarray) or isinstance(b, np.ndarray):
+        return isinstance(a, np.ndarray) and isinstance(b, np.ndarray) and a.shape == b.shape and all(_same_model(x, y) for x, y in zip(a.ravel().tolist(), b.ravel().tolist()))
+    try:
+        return bool(a == b)
+    except Exception:
+        return False
+
+
 def system_model(ctx):
     loc = SYS + '::System.model'
     fn = ctx.fn(SYS, 'System.model')
@@ -348,7 +362,7 @@ def system_model(ctx):
         except Opaque as e:
             raise AnalysisError('System(model=) (%s): %s' % (tag, e))
         ctx.need('atoms' in made, 'System(model=...) does not build its atoms from the model (%s)' % tag)
-        ctx.ob('SYSTEM-MODEL', SYS + '::System.__init__', '%s: reading leaves the model object as it was given (read twice, or read and then written out, it is still the same model)' % tag, m == m_before, node=init, key=tag + ' read keeps model')
+        ctx.ob('SYSTEM-MODEL', SYS + '::System.__init__', '%s: reading leaves the model object as it was given (read twice, or read and then written out, it is still the same model)' % tag, _same_model(m, m_before), node=init, key=tag + ' read keeps model')
         e1 = {'pbc': me2.attrs.get('_System__pbc'), 'symbols': me2.attrs.get('_System__symbols'), 'masses': me2.attrs.get('_System__masses')}
         view = made['atoms'].view
         bad = [k for k in props if k not in view or np.shape(view[k]) != np.shape(props[k]) or not all(sp.simplify(a_ - b_) == 0 for a_, b_ in zip(np.ravel(view[k]), np.ravel(props[k])))]
